@@ -243,7 +243,10 @@ class Frame:
 
 
 class LoopSpec:
-    def __init__(self, invariant=None, unroll=None, raw=None):
+    def __init__(self, invariant=None, unroll=None, raw=None, summarise=False):
+        self.summarise = summarise    # True: only the invariant's loop-entry obligations are generated here; the
+        #                               iterations are verified by a loop-body contract of their own and the state
+        #                               after the loop is arbitrary (nothing is assumed about it)
         self.invariant = invariant    # fn(c, st) -> [(label, Bool)]
         self.unroll = unroll          # int: complete unrolling with unwinding assertion
         self.raw = raw                # fn(c, st) -> [(addr, nbytes)]: the only byte regions the loop may write
@@ -322,6 +325,7 @@ class Exec:
         self.declared_regions = []
         self.collecting_regions = False
         self.fresh_regions = []        # (addr, nbytes) allocated during this execution
+        self.summarised_loops = []
         self.loop_regions = []
         self.literals = {}             # string literals seen: key -> (address, bytes)
         self.literal_hyps = []
@@ -1116,6 +1120,8 @@ class Exec:
         for part in (cond, inc, body):
             if part:
                 self.assigned_in(part, acc)
+        if spec.summarise:
+            acc['calls'] = True
         h = st.copy()
         for did in acc['vars']:
             if did in h.env:
@@ -1140,6 +1146,9 @@ class Exec:
         if acc['calls']:
             for gk in list(h.ghost):
                 h.ghost[gk] = self.fresh('loop%d_g' % ordinal, h.ghost[gk].sort())
+        if spec.summarise:
+            self.summarised_loops.append((self.fname, ordinal, line))
+            return h
         c_h = Ctx(self, self.args, self.st0, h)
         c_h.entry = st
         for label, g, extra in _norm(spec.invariant(c_h, h)):
